@@ -28,6 +28,16 @@ def cases(ctx):
                 continue
             if not thorough or ctx.mine(i):
                 yield {'ex': ex_i, 'name': ex.name, 'inst': inst}
+    # fixed witnesses of the recorded (open) findings, so that each is exercised on every run
+    names = [e.name for e in EX.ALL]
+    yield {'ex': names.index('dfa2regexp'), 'name': 'dfa2regexp', 'inst': {'D': {'Q': ['q0', 'q1'], 'Sigma': ['0', '1'], 'q0': 'q0', 'F': ['q1'],
+           'delta': [['q0', '0', 'q0'], ['q0', '1', 'q1'], ['q1', '0', 'q1'], ['q1', '1', 'q0']]}, 'len': 4}}
+    yield {'ex': names.index('nfa2dfa'), 'name': 'nfa2dfa', 'inst': {'N': {'Q': ['q0', 'q1'], 'Sigma': ['a', '_'], 'q0': 'q0', 'F': ['q1'], 'eps': 'ε', 'dd': True,
+           'delta': [['q0', 'a', ['q0', 'q1']], ['q0', '_', ['q1']], ['q1', 'ε', ['q0']]]}}}
+    V = list('SABCDEFGHIJKLMNOPQRUVWX')
+    big = {'V': V, 'Sigma': ['a', 'b'], 'S': 'S', 'R': [[A, i, [['t', 'a'], ['v', V[(i + 1) % len(V)]], ['t', 'b'], ['t', 'a']]] for i, A in enumerate(V)] +
+           [[A, len(V) + i, [['t', 'b']]] for i, A in enumerate(V)]}
+    yield {'ex': names.index('chomsky4'), 'name': 'chomsky4', 'inst': {'G': big, 'start': 'T', 'len': 2}}
     yield {'ex': -1, 'name': 'shipped-notebooks', 'inst': {}}
 
 
